@@ -95,14 +95,18 @@ func checkC01(rep *Report, rng *Rng, tier string) {
 	modelOn = true
 	rep.Rule = "seeded random histories (Set/SetItem incl. invalid items, Delete, Get/GetItem, Exist, Min/Max, GetTotals over 1-3 collections and 4 comparators, interleaved with Flush/EvictSomeItems/re-open, file-backed and memory-only); every return value compared with a sorted-map reference and with the Coq model; non-trivial = at least 8 ops, distinct = different (op kind,key) sequence"
 	HistoryLoop(rep, rng, n, func(r *Rng, i int) (RunCfg, []Op, string) {
-		g := GenCfg{FileBacked: r.Chance(2, 3), NColls: 1 + r.Intn(3), NOps: 40 + r.Intn(80), CmpMode: r.Intn(2), Invalid: true,
-			Structural: true, PrioMode: r.Intn(4), BigVals: r.Chance(1, 4)}
-		if i%16 == 15 {
-			g.NOps = 400
-		}
-		d := CfgDesc{Check: "C01", FileBacked: g.FileBacked, CmpCB: g.CmpMode == 1, DumpEvery: i%4 == 0}
-		ops := GenHistory(r, g)
+		d, ops := genC01(r, i)
 		return d.RunCfg(), ops, d.String()
 	}, nil)
 	modelCompare(rep, "C01")
+}
+
+func genC01(r *Rng, i int) (CfgDesc, []Op) {
+	g := GenCfg{FileBacked: r.Chance(2, 3), NColls: 1 + r.Intn(3), NOps: 40 + r.Intn(80), CmpMode: r.Intn(2), Invalid: true,
+		Structural: true, PrioMode: r.Intn(4), BigVals: r.Chance(1, 4)}
+	if i%16 == 15 {
+		g.NOps = 400
+	}
+	d := CfgDesc{Check: "C01", FileBacked: g.FileBacked, CmpCB: g.CmpMode == 1, DumpEvery: i%4 == 0}
+	return d, GenHistory(r, g)
 }
